@@ -38,7 +38,7 @@ def main():
 
 ## Your workspace
 
-* Your scratch worktree (a git worktree of the project at the commit under study): `{wt}`. It already exists. Work ONLY there.
+* Your scratch worktree (a git worktree of the project at the commit under study): `{wt}`. It already exists. Work ONLY there. NEVER use `git stash` (the stash is shared between all worktrees of the repository and other people work in sibling worktrees right now); to test the unchanged source, save your diff to a file and use `git apply -R` / `git apply`.
 * No network. Always build offline: prefix cargo with `CARGO_NET_OFFLINE=true` and pass `--offline`. Use `-j 4` (the machine is shared with other jobs). Use the worktree's own `target` directory (the default).
 * Useful commands: `CARGO_NET_OFFLINE=true cargo test --offline -j 4 -p vls-core --features test_utils --test NAME` (integration tests in `<crate>/tests/` see only the public API; vls-core's `test_utils` feature gives helpers in `vls-core/src/util/test_utils.rs`; look at how existing tests under `vls-core/src/*_tests.rs`, `vls-persist/tests`, `vls-protocol-signer/tests` build nodes and channels).
 
